@@ -472,3 +472,10 @@ def r15_11(ctx):
     from .c13 import r13_4
 
     r13_4(ctx)
+
+
+@rule("R15.12", "C15", "a declaration with several declarators (`T a = 1, b = 2;`) is rejected, or every declarator's initialisation is part of what the callback hands on", min_instances=1)
+def r15_12(ctx):
+    from .c03 import declaration_with_several_declarators
+
+    declaration_with_several_declarators(ctx)
